@@ -5,14 +5,16 @@ Line-protocol driver for the C04 model.
 
 ```
 cfg <s|e|o> <minTTL ns> <override>            reset; s = simple cache, e = ECS cache, o = simple cache before the fix
-q <now> <REQ> <dep> <MSG>                     one request at time `now`; MSG = what the next handler answers
+q <now> <REQ> <scope> <fake> <MSG>            one request at time `now`; MSG = what the next handler answers,
+                                              scope = ECS scope of that answer, fake = name in FakeECSFQDNs
+fwd <REQ>                                     ECS cache: what is forwarded on a miss: DO bit, family, subnet id
 evict <REQ>                                   capacity eviction of the entries the request could hit
 low <MSG>                                     findLowestTTL
 cacheable <qtype> <MSG>                       isCacheable
 ttl <s|e|o> <lowest> <age ns>                 TTL of a served item
 rmhop <qtype> <do> <MSG>                      rmHopToHopData
 keyeq <s|n|d> <REQ> <REQ>                     do two requests map to the same cache key
-REQ = name qtype qclass do ad rd cd fam6 declined subnet
+REQ = name qtype qclass do ad rd cd fam6 declined subnet edns
 MSG = rcode tc aa ad ra rd cd nq nAnswer nNs nExtra (typ ttl soaMin data)*
 ```
 -/
@@ -41,10 +43,10 @@ def parseMsg : List String → Option Msg
   | _ => none
 
 def parseReq : List String → Option (Req × List String)
-  | name :: qt :: qc :: d :: ad :: rd :: cd :: f6 :: decl :: sub :: ts =>
+  | name :: qt :: qc :: d :: ad :: rd :: cd :: f6 :: decl :: sub :: ed :: ts =>
     some ({ name := name, qtype := nat! qt, qclass := nat! qc, do_ := bool! d, ad := bool! ad,
             rd := bool! rd, cd := bool! cd, fam6 := bool! f6, declined := bool! decl,
-            subnet := nat! sub }, ts)
+            subnet := nat! sub, edns := bool! ed }, ts)
   | _ => none
 
 def showRR (r : RR) : String := s!"{r.typ}:{r.ttl}:{r.soaMin}:{r.data}"
@@ -68,10 +70,10 @@ def step (s : S) : List String → S × String
     ({ kind := kind, cfg := { minTTL := nat! minTTL, override := bool! ov }, store := Store.empty }, "ok")
   | "q" :: now :: rest =>
     match parseReq rest with
-    | some (r, dep :: ms) =>
+    | some (r, scope :: fake :: ms) =>
       match parseMsg ms with
       | some a =>
-        let o := if s.kind == "e" then Ecs.step s.cfg s.store (nat! now) r a (bool! dep)
+        let o := if s.kind == "e" then Ecs.step s.cfg s.store (nat! now) r a (Ecs.respDep (nat! scope) (bool! fake))
                  else Simple.stepWith (ttlFn s.kind) s.cfg s.store (nat! now) r a
         ({ s with store := o.store }, showOut o)
       | none => (s, "bad-op")
@@ -82,6 +84,10 @@ def step (s : S) : List String → S × String
       let st := if s.kind == "e" then (s.store.del (Ecs.keyNo r)).del (Ecs.keyDep r)
                 else s.store.del (Simple.keyOfReq r)
       ({ s with store := st }, "ok")
+    | none => (s, "bad-op")
+  | "fwd" :: rest =>
+    match parseReq rest with
+    | some (r, _) => (s, s!"{showB (Ecs.fwdDO r)} {showB r.fam6} {Ecs.effSubnet r}")
     | none => (s, "bad-op")
   | "low" :: ms =>
     match parseMsg ms with
